@@ -302,6 +302,43 @@ pub fn nocache(env: &Env, f: &F) -> Result<Gcv, String> {
     Ok(eval_node(tree, g, &mut ec, &steady, &mut cb))
 }
 
+/// Session use of the public evaluation context: the context is created once (no sub-formula
+/// sharing, wild-card counters only), extended with `first`, the formula is evaluated, the context
+/// is extended again with `second` (same labels, other sets) and the formula is evaluated again.
+pub fn session_rebind(env: &Env, f: &F, first: &HashMap<String, Gcv>, second: &HashMap<String, Gcv>) -> Result<(Gcv, Gcv), String> {
+    let g = &env.graph;
+    let tree = parse_and_minimize_extended_formula(g.symbolic_context(), &f.render())?;
+    if !check_hctl_var_support(g, tree.clone()) {
+        return Err("Graph does not support enough HCTL state variables".to_string());
+    }
+    let (props, doms) = validate_and_divide_wild_cards(&tree, first)?;
+    let mut dup = HashMap::new();
+    let mut labels = BTreeSet::new();
+    let mut dl = BTreeSet::new();
+    f.wild_labels(&mut labels, &mut dl);
+    for l in &labels {
+        dup.insert((format!("%{l}%"), VarDomainMap::new()), f.count_wild(l) as i32 - 1);
+    }
+    let mut ec = EvalContext::new(dup);
+    ec.extend_context_with_wild_cards(&props, &doms);
+    let steady = compute_steady_states(g);
+    let mut cb = |_: &Gcv, _: &str| {};
+    let a = eval_node(tree.clone(), g, &mut ec, &steady, &mut cb);
+    // bind the labels again
+    let mut ctx2 = first.clone();
+    for (l, s) in second {
+        ctx2.insert(l.clone(), s.clone());
+    }
+    let (props2, doms2) = validate_and_divide_wild_cards(&tree, &ctx2)?;
+    // occurrences have been consumed: give each label its occurrence count again
+    for l in &labels {
+        ec.duplicates.insert((format!("%{l}%"), VarDomainMap::new()), f.count_wild(l) as i32 - 1);
+    }
+    ec.extend_context_with_wild_cards(&props2, &doms2);
+    let b = eval_node(tree, g, &mut ec, &steady, &mut cb);
+    Ok((a, b))
+}
+
 pub fn sanitise(env: &Env, set: &Gcv) -> Gcv {
     sanitize_colored_vertices(&env.graph, set)
 }
